@@ -30,6 +30,9 @@ TABLE = [
      "a generic argument followed by a line comment is kept on one line"),
     ("formatters::luau::attempt_assigned_type_tactics", "should_hang_type", "format_type_info", "luau",
      "`type T = A | -- c` newline `{ .. }` is hugged on one line: the rest of the type lands inside the comment"),
+    # (.., setter): the value judged is the argument of that `with_*` setter of the returned node
+    ("formatters::block::format_return", "has_trailing_comments", "format_symbol", None,
+     "`return -- c` newline `x` keeps the first value on the comment's line: the value becomes part of the comment", "with_token"),
 ]
 
 
@@ -62,7 +65,9 @@ def rule_comment_layout(ctx, prop):
     for cfg, prog in ctx.programs.items():
         n = 0
         cache = {}
-        for fn, pred, flat, feat, what in TABLE:
+        for row in TABLE:
+            fn, pred, flat, feat, what = row[:5]
+            setter = row[5] if len(row) > 5 else None
             if feat and feat not in FEATURES.get(cfg, ()):
                 continue
             f = prog.fn("stylua_lib", fn)
@@ -82,12 +87,23 @@ def rule_comment_layout(ctx, prop):
             if not rep.anchor(res is not None, f"{fn}: path enumeration within bounds", cfg):
                 continue
             per_site = {}
+            setter_blocks = [b for b, t in f.calls() if setter and callee(t).split("::<")[0].split("::")[-1] == setter and len(t["args"]) > 1]
             for st in res:
                 pr = None
                 for cb in sites:
                     if st.decisions.get(cb) is True:
                         if pr is None:
-                            pr = _producers(f, st, st.vals.get(0))
+                            if setter:
+                                pr = set()
+                                trail = set(st.trail)
+                                for sb in setter_blocks:
+                                    if sb in trail:
+                                        a = f.blocks[sb]["term"]["args"][1]
+                                        pr |= _producers(f, st, None if is_const(a) else st.vals.get(op_place(a)["l"]))
+                                if not pr:
+                                    continue
+                            else:
+                                pr = _producers(f, st, st.vals.get(0))
                         per_site.setdefault(cb, set()).update(pr)
             decided = {cb: ps for cb, ps in per_site.items()}
             if not decided:
@@ -104,3 +120,237 @@ def rule_comment_layout(ctx, prop):
         want = sum(1 for r in TABLE if not r[3] or r[3] in FEATURES.get(cfg, ()))
         rep.floor("comment-forced layout rows evaluated", n, max(1, want - 2), cfg)
     return rep
+
+
+BUILDER_EXCEPTIONS = {
+    ("formatters::stmt::format_if", "If"): "the single-line form is only built for an `if` without elseif / else branches (is_if_guard), "
+                                           "so those three fields hold None",
+    ("formatters::luau::format_type_declaration", "GenericDeclaration"): "the clone is of the already formatted declaration (format_generic_declaration); "
+                                                                       "only the arrows get the comments moved from the type name",
+}
+CONTINUES = re.compile(r"update_(leading_|trailing_)?trivia$|Clone>::clone$|ToOwned>::to_owned$")
+
+
+def rule_builder(ctx, prop):
+    """`node.to_owned().with_a(a).with_b(b)`: what is not replaced stays the input's - raw tokens with the input's whitespace"""
+    rep = Report(prop, "R-BUILDER", "a formatter that rebuilds a struct node by cloning it and replacing its parts with `with_*` setters "
+                                    "replaces every field (setters reached from the clone = fields of the struct); the range-only "
+                                    "visitor (stmt_block::*, format_last_stmt_block), which replaces the block alone, is exempt")
+    for cfg, prog in ctx.programs.items():
+        n = 0
+        for f in prog.fns("stylua_lib"):
+            if not f.path.startswith("formatters::") or "stmt_block::" in f.path or \
+                    f.path.split("::{closure")[0] == "formatters::block::format_last_stmt_block":
+                continue        # the range-only visitor replaces the block of a statement and nothing else
+            for b, t in f.calls():
+                c = callee(t)
+                if not re.search(r"(ToOwned>::to_owned|Clone>::clone)$", c) or not t.get("dst") or t["dst"].get("p"):
+                    continue
+                ty = f.local_ty(t["dst"]["l"])
+                if not ty.startswith("full_moon::ast::"):
+                    continue
+                a = prog.adt(ty, "stylua_lib")
+                if not a or a["kind"] != "struct":
+                    continue
+                fields = [x["name"] for x in a["variants"][0]["fields"]]
+                S, seen, work, escapes = set(), set(), [t["dst"]["l"]], False
+                while work:
+                    l = work.pop()
+                    if l in seen:
+                        continue
+                    seen.add(l)
+                    for u in forward_uses(f, l):
+                        if u[0] != "call":
+                            if u[0] in ("agg", "field") and S:
+                                pass
+                            continue
+                        c2 = callee(u[2])
+                        m = re.search(r"^" + re.escape(ty) + r"::with_(\w+)$", c2)
+                        if m and u[3] == 0:
+                            S.add(m.group(1))
+                            if u[2].get("dst") and not u[2]["dst"].get("p"):
+                                work.append(u[2]["dst"]["l"])
+                        elif CONTINUES.search(c2) and u[3] == 0 and u[2].get("dst") and not u[2]["dst"].get("p") and \
+                                f.local_ty(u[2]["dst"]["l"]) == ty:
+                            work.append(u[2]["dst"]["l"])
+                        elif re.search(r"^formatters::", c2):
+                            h = prog.fn("stylua_lib", c2)
+                            if h is not None and ty in h.locals[0]:
+                                escapes = True       # handed to a helper that returns the same node type: it may set the rest
+                if not S:
+                    continue
+                tn = ty.split("::")[-1]
+                if escapes:
+                    rep.note(f"@{cfg}: {f.path} {tn}: the partly rebuilt node is handed to a helper (not judged)")
+                    continue
+                n += 1
+                exc = BUILDER_EXCEPTIONS.get((f.path, tn))
+                ok = len(S) >= len(fields) or exc is not None
+                rep.inst(f"{f.key} {tn} rebuilt field by field", {"setters": sorted(S), "fields": fields, "exception": exc}, cfg, ok=ok)
+                if not ok:
+                    rep.violation(f"{f.key} builder-leaves-input-fields {tn} setters={','.join(sorted(S))}",
+                                  f"{f.path} clones the input {tn} and replaces {sorted(S)} - {len(S)} of its {len(fields)} fields {fields}: "
+                                  f"the remaining field keeps the input's tokens (their original whitespace, indentation and "
+                                  f"line endings, unformatted)", f.loc(t["sp"]), cfg)
+        from extract import FEATURES as _F
+        rep.floor("builder chains over cloned input nodes", n, 17 if "luau" in _F.get(cfg, ()) else 8, cfg)
+    return rep
+
+
+# ---------------------------------------------------------------------------------------------------------------------------
+# R-WASTE: a recursive formatter call whose result is neither inspected nor returned on some path is formatting done for
+# nothing on that path - the signature of a trial layout hoisted out of its guard. Because formatters recurse into the
+# children, one such site per nesting level doubles the work per level (2^depth). The sites that exist on the pinned tree
+# (trial layouts computed before the decision that may discard them) are frozen in frozen_waste.json
+# (`python3 rules/r_layout.py --freeze`); the rule is a reference through time: no new site, no higher count.
+import json
+import os
+WASTE_FILE = os.path.join(os.path.dirname(os.path.abspath(__file__)), "frozen_waste.json")
+CHEAP = re.compile(r"::(format_symbol|format_token_reference|format_end_token|format_token)$")
+
+
+def _aliases(f, l):
+    al = {l}
+    changed = True
+    while changed:
+        changed = False
+        for bi, blk in enumerate(f.blocks):
+            for s in blk["st"]:
+                if s["k"] != "assign" or s["dst"].get("p"):
+                    continue
+                rv = s["rv"]
+                src = None
+                if rv["k"] in ("use", "cast") and not is_const(rv["o"]):
+                    src = op_place(rv["o"])["l"]
+                elif rv["k"] in ("ref", "rawptr"):
+                    src = rv["p"]["l"]
+                # a move into the return place, or into a variable assigned on several paths (`x = a` here, `x = b` there), is a
+                # use at that point - only single-assignment temporaries are the same value under another name
+                if src in al and s["dst"]["l"] not in al and s["dst"]["l"] != 0 and len(f.defs().get(s["dst"]["l"], [])) == 1:
+                    al.add(s["dst"]["l"])
+                    changed = True
+    return al
+
+
+def _use_blocks(f, l):
+    """blocks in which the value (through copies and references) is consumed: passed to a call, built into an aggregate,
+    compared, switched on, projected - or returned"""
+    al = _aliases(f, l)
+    out = set()
+    for bi, blk in enumerate(f.blocks):
+        for s in blk["st"]:
+            if s["k"] != "assign":
+                continue
+            rv = s["rv"]
+            if not s["dst"].get("p") and s["dst"]["l"] in al and rv["k"] in ("use", "cast", "ref", "rawptr"):
+                continue        # the alias definition itself (a move into the return place is a use, below)
+            ops = [x for x in (rv.get("o"), rv.get("a"), rv.get("b")) if x is not None] + list(rv.get("ops", []))
+            if any(not is_const(o) and op_place(o)["l"] in al for o in ops):
+                out.add(bi)
+            if rv["k"] in ("ref", "rawptr", "discr") and rv["p"]["l"] in al:
+                out.add(bi)
+        t = blk["term"]
+        if t["k"] == "call" and not re.search(r"drop", callee(t)):
+            if any(not is_const(a) and op_place(a)["l"] in al for a in t["args"]):
+                out.add(bi)
+        if t["k"] == "switch" and not is_const(t["on"]) and op_place(t["on"])["l"] in al:
+            out.add(bi)
+    return out
+
+
+def waste_sites(prog):
+    """{(fn path, callee last segment): count} of recursive formatter calls whose result is unused on some path to a return"""
+    from r_raw import FORMATTERS
+    from inline import known_names
+    known = known_names("stylua_lib")
+    out = {}
+    total = 0
+    for f in prog.fns("stylua_lib"):
+        if not f.path.startswith("formatters::"):
+            continue
+        base = f.path.split("::{closure")[0]
+        if known is not None and base not in known:
+            continue        # a new helper: analysed in place at its callers (transparent view)
+        rets = [bi for bi, b in enumerate(f.blocks) if b["term"]["k"] == "return"]
+        for b, t in f.calls():
+            c = callee(t)
+            if not FORMATTERS.search(c) or CHEAP.search(c) or not t.get("dst") or t["dst"].get("p") or t.get("t") is None:
+                continue
+            l = t["dst"]["l"]
+            if l == 0:
+                continue
+            total += 1
+            U = _use_blocks(f, l)
+            start = t["t"]
+            # `hang_expression(..).update_trailing_trivia(..)`: the value is the decorated one
+            for _ in range(6):
+                if len(U) != 1:
+                    break
+                ub = next(iter(U))
+                t2 = f.blocks[ub]["term"]
+                if t2["k"] == "call" and NEUTRAL.search(callee(t2)) and t2["args"] and not is_const(t2["args"][0]) and \
+                        t2.get("dst") and not t2["dst"].get("p") and t2.get("t") is not None and f.dominates(start, ub) and \
+                        op_place(t2["args"][0])["l"] in _aliases(f, l):
+                    l = t2["dst"]["l"]
+                    if l == 0:
+                        break
+                    U = _use_blocks(f, l)
+                    start = t2["t"]
+                else:
+                    break
+            if l == 0:
+                continue
+            if start in U:
+                continue
+            reach = f.reach_from(start, avoid=U)
+            if any(r in reach for r in rets):
+                k = (f.path, c.split("::<")[0].split("::")[-1])
+                out[k] = out.get(k, 0) + 1
+    return out, total
+
+
+def rule_waste(ctx, prop):
+    rep = Report(prop, "R-WASTE", "no recursive formatter call has a result that is neither inspected nor returned on some path, beyond the "
+                                  "trial-layout sites frozen from the pinned tree: formatting hoisted out of its guard repeats the work "
+                                  "of the whole subtree at every nesting level (exponential in the depth)")
+    if not rep.anchor(os.path.exists(WASTE_FILE), "frozen_waste.json"):
+        return rep
+    frozen = json.load(open(WASTE_FILE))
+    for cfg, prog in ctx.programs.items():
+        ref = frozen.get(cfg) or frozen.get("all") or {}
+        cur, total = waste_sites(prog)
+        for (fn, c), cnt in sorted(cur.items()):
+            allowed = ref.get(f"{fn} | {c}", 0)
+            ok = cnt <= allowed
+            rep.inst(f"stylua_lib::{fn} discarded {c} results within the frozen count", {"now": cnt, "frozen": allowed}, cfg, ok=ok)
+            if not ok:
+                f = prog.fn("stylua_lib", fn)
+                rep.violation(f"stylua_lib::{fn} formatter-result-unused-on-a-path callee={c} count={cnt} frozen={allowed}",
+                              f"{fn} calls {c} and, on some path to its return, neither inspects nor returns the result ({cnt} such "
+                              f"site(s), {allowed} on the pinned tree): the subtree is formatted for nothing on that path, and "
+                              f"because the formatters recurse, once per nesting level - nested tables / calls / types take time "
+                              f"exponential in their depth", f.loc() if f else None, cfg)
+        rep.inst("recursive formatter call sites examined", {"sites": total, "discarding_sites": sum(cur.values())}, cfg, ok=True)
+        rep.floor("recursive formatter call sites examined", total, 150, cfg)
+    return rep
+
+
+def freeze_waste():
+    import extract
+    import facts
+    import inline
+    files, _ = extract.extract(extract.THOROUGH, verbose=False)
+    out = {}
+    for c in extract.THOROUGH:
+        prog = inline.transparent_view(facts.Program(c, files[c]))
+        cur, total = waste_sites(prog)
+        out[c] = {f"{fn} | {cal}": n for (fn, cal), n in sorted(cur.items())}
+        print(c, total, sum(cur.values()))
+    with open(WASTE_FILE, "w") as fh:
+        json.dump(out, fh, indent=1, sort_keys=True)
+
+
+if __name__ == "__main__":
+    import sys
+    if "--freeze" in sys.argv:
+        freeze_waste()
